@@ -18,7 +18,7 @@ RULE = ('configuration = swarm size 1..6, argument dictionary (random tuples per
 ASSUMPTIONS = ['members are duck-typed SyncCrazyflie stand-ins (open_link / close_link / cf); a subset of cases uses real '
                'SyncCrazyflie objects over the sim:// driver']
 REQUIRED = ['mon.parallel_safe', 'mon.parallel', 'mon.sequential', 'mon.open_failures', 'mon.double_open', 'mon.real_members',
-            'mon.actions_invoked']
+            'mon.actions_invoked', 'mon.argument_dictionaries_in_another_order']
 DESC_TIMEOUT = 900
 
 
@@ -93,6 +93,15 @@ def run_actions(desc, ctx):
         failing = {uris[i] for i in sub}
         use_args = rnd.random() < 0.7
         args = {u: [rnd.randrange(100), 'a-%s' % u, (u, rnd.random())][:rnd.randint(0, 3)] for u in uris} if use_args else None
+        if args is not None and rnd.random() < 0.6:
+            # the dictionary need not be written in the order of the URI list, and may hold entries for other Crazyflies
+            keys = list(args)
+            rnd.shuffle(keys)
+            if rnd.random() < 0.4:
+                keys.insert(rnd.randrange(len(keys) + 1), 'sim://not-a-member')
+            args = {k: args.get(k, ['x']) for k in keys}
+            if keys != uris:
+                ctx.count('mon.argument_dictionaries_in_another_order')
         for si in range(desc['S'] // 4 if n >= 4 else desc['S']):
             log = []
             fac = Factory(log, set())
